@@ -26,7 +26,7 @@ def program_sets(tier):
 
 def run(rep, info, model, tier, seed):
     proof_ok = rep.proof_obligations(info, "props/C12.v")
-    rep.assumptions += ["schedules are explored at the granularity of shared-state actions; that local computation between them commutes with other threads' steps (so that line/bytecode interleavings add nothing) is an argument, not mechanised",
+    rep.assumptions += ["schedules are explored at the granularity of shared-state actions; that local computation between them commutes with other threads' steps (so that line/bytecode interleavings add nothing) is an argument, not mechanised; it is probed by the line-level family (every executed source line a scheduling point, one preemption)",
                         "CPython's GIL makes single attribute reads/writes atomic (modelled)"]
     sets = program_sets(tier)
     two = [s for s in sets if len(s[0]) == 2]
